@@ -30,5 +30,12 @@ GeneratorHistories == UNION {{<<PS("ode"), An(a), Ge(p, "reused"), Ed, An(a), Ge
                               <<PS("ode"), Ed, An(a), Ge(p, "fresh")>>, <<PS("ode"), Ed, An(a), Ge(p, "reused")>>, <<PS("ode"), An(a), Ge(p, "reused"), PS("ode2"), An(a), Ge(p, "reused")>>,
                               <<PS("ode2"), An(a), Ge(p, "fresh")>>}
                              : a \in {"fresh", "reused"}, p \in {"c", "py"}, q \in {"c", "py"}}
+\* importer-centred histories: parse an importing document, resolve, then every sequence of three calls that may read or (wrongly)
+\* write the imported models - a second flatten must see what the first one saw
+Rs(i) == [op |-> "resolve", strict |-> TRUE, inst |-> i]
+ImporterTail == {Rs(i) : i \in {"fresh", "reused"}} \cup {[op |-> "flatten", strict |-> TRUE, inst |-> i] : i \in {"fresh", "reused"}}
+                \cup {[op |-> "validate", inst |-> "fresh"], [op |-> "print", auto |-> FALSE, inst |-> "fresh"]}
+ImporterHistories == {<<PS(t), Rs(i), a, b, c>> : t \in Texts, i \in {"fresh", "reused"}, a \in ImporterTail, b \in ImporterTail, c \in ImporterTail}
+EmitImporter == hist = <<>> => \A h \in ImporterHistories : EmitScenario([cmds |-> h])
 EmitExplicit == hist = <<>> => \A h \in GeneratorHistories : EmitScenario([cmds |-> h])
 =============================================================================
